@@ -790,15 +790,15 @@ static int hq_len(void) {
   return n;
 }
 static int nfds(void) { int f[256]; int on = fi_on, n; fi_on = 0; n = fd_snapshot(f, 256); fi_on = on; return n; }
-struct ledger { int r, h, q, m, f; };
+struct ledger { int r, h, q, m, f, w; };
 static struct ledger led(void) {
   struct ledger l;
-  l.r = (int) L.active_reqs.count; l.h = (int) L.active_handles; l.q = hq_len(); l.m = (int) fi_live; l.f = nfds();
+  l.r = (int) L.active_reqs.count; l.h = (int) L.active_handles; l.q = hq_len(); l.m = (int) fi_live; l.f = nfds(); l.w = kwatches();
   return l;
 }
 static void unit_report(const char* name, int rc, struct ledger a, struct ledger b, const char* extra) {
-  ev("U:%s rc=%s dr=%d dh=%d dq=%d dm=%d df=%d%s", name, rc < 0 ? uv_err_name(rc) : "0",
-     b.r - a.r, b.h - a.h, b.q - a.q, b.m - a.m, b.f - a.f, extra);
+  ev("U:%s rc=%s dr=%d dh=%d dq=%d dm=%d df=%d dw=%d%s", name, rc < 0 ? uv_err_name(rc) : "0",
+     b.r - a.r, b.h - a.h, b.q - a.q, b.m - a.m, b.f - a.f, b.w - a.w, extra);
 }
 #define ARM(name) do { fi_api = name; fi_armed = 1; } while (0)
 #define DISARM() do { fi_armed = 0; fi_api = "-"; } while (0)
@@ -868,7 +868,7 @@ static void su_os_environ(void) {
   DISARM(); z.m = (int) fi_live;
   environ = saved;
   snprintf(extra, sizeof extra, " count=%d items=%s", n, items ? "set" : "null");
-  a.r = a.h = a.q = a.f = z.r = z.h = z.q = z.f = 0;
+  a.r = a.h = a.q = a.f = a.w = z.r = z.h = z.q = z.f = z.w = 0;
   unit_report("os_environ", rc, a, z, extra);
   if (rc == 0) uv_os_free_environ(items, n);
 }
@@ -886,13 +886,6 @@ static void su_fs_event_start(void) {
   DISARM(); z = led();
   snprintf(extra, sizeof extra, " inotify=%s", L.inotify_fd >= 0 ? "open" : "none");
   unit_report("fs_event_start", rc, a, z, extra);
-  /* is a kernel watch left behind although the call failed?  (observation, item 17) */
-  if (rc < 0 && L.inotify_fd >= 0 && scen_arg != 2) {
-    char b[4096]; ssize_t r;
-    touch("w/a");
-    r = __real_read(L.inotify_fd, b, sizeof b);
-    ev("stale_watch=%d", r > 0 ? 1 : 0);
-  }
   loop_end();
 }
 static void su_getaddrinfo(void) {
